@@ -113,6 +113,25 @@ def run(ctx):
         if T.size(t) > 200:
             continue
         t = norm_for_parse(inject(rng, t, var))
+        if rng.random() < 0.3:
+            # the variable spelled like something that plays ANOTHER role in the same body:
+            # a called function, a path segment, a named-parameter name
+            roles = []
+            for n in T.walk(t):
+                if n[0] == "call":
+                    roles.append((n[1].split(".")[-1], "function") if "." in n[1] else (n[1], "function"))
+                elif n[0] == "attr":
+                    roles.append((n[2], "segment"))
+                elif n[0] == "np":
+                    roles.append((n[1][1], "param-name"))
+            bound = {n[3] for n in T.walk(t) if n[0] == "lam" and n[3]}
+            roles = [r for r in roles if r[0] not in bound]
+            if roles:
+                h, role = rng.choice(roles)
+                t = T.map_term(lambda x: ("id", h, ()) if x == ("id", var, ()) else x, t)
+                ctx.cls("var-named-like-" + role)
+                judge(ctx, t, h, "homonym:" + role)
+                continue
         judge(ctx, t, var, "random")
         if i % 7 == 0:
             judge(ctx, t, "zz_absent", "absent")
@@ -122,7 +141,10 @@ def run(ctx):
     directed = [("x/a eq 1", "x"), ("x/a/b eq x/c", "x"), ("y/x/a eq 1", "x"), ("ns.x/a eq 1", "x"),
                 ("x/x/a eq x", "x"), ("contains(x/name, 'a') and x/n in (x/a, 2)", "x"),
                 ("x/items/any(y: y/p gt x/q)", "x"), ("my.f(k=x/a, j=(x/b,))", "x"),
-                ("-x/a add x/b/c mul 2 gt 0", "x"), ("a eq 1", "x")]
+                ("-x/a add x/b/c mul 2 gt 0", "x"), ("a eq 1", "x"),
+                ("year(year/published_at) eq 2020", "year"), ("length(length/name) eq 5", "length"),
+                ("contains(name/first, 'a') and a/name eq name/last", "name"),
+                ("my.f(k=k/a)", "k"), ("ns.f(f/a)", "f"), ("date(d/date) eq date/d", "date")]
     if ctx.shard == 0:
         for text, var in directed:
             t = drive.parse_term(text)[1]
